@@ -4,6 +4,7 @@
     C13.v); C33's theorems give the string, varlen-size and bit-vector layouts. *)
 From TLV Require Import Prim.PrimModel Prim.PrimProofs Tl1.Tl1Model Tl1.Tl1Proofs Tl1.Tl1Canon Tl1.Tl1Spec.
 From TLV Require Import Tl1.Tl1CanonDict.
+From TLV Require Import Tl1.Tl1IsoModel Tl1.Tl1Resolve.
 Open Scope N_scope.
 
 Theorem C11_little_endian_nat : forall v,
@@ -155,3 +156,71 @@ Proof.
   - vm_compute. reflexivity.
   - apply app_inv_tail in E. subst pfx. vm_compute in He. injection He as <-. exact Hq.
 Qed.
+
+(** * The reference's schema IR is cross-checked against an independent derivation
+
+    The IR the reference runs on is dumped from the real kernel; the leg corr:C11:resolution derives it
+    a second time from the schema text (lib/indep_ir.py, no /repo code) and evaluates the extracted
+    checker [ir_iso] on (independent IR, kernel IR, renumbering found by the lockstep walk).  When the
+    checker accepts, the reference codec over the kernel's IR IS the reference codec over the
+    independently derived IR: same bytes for every value, same verdict/value/rest for every byte
+    string, every nat-argument vector and every fuel -- so a kernel resolution defect can no longer
+    hide behind a self-consistent wrong IR. *)
+Theorem C11_isomorphic_ir_same_codec : forall r s1 s2,
+  ir_iso r s1 s2 = true ->
+  (forall t t', (t < length s1)%nat -> (t' < length s1)%nat -> rn r t = rn r t' -> t = t') /\
+  forall t, (t < length s1)%nat ->
+    (forall san bare ps v, enc1 san s1 t bare ps v = enc1 san s2 (rn r t) bare ps v) /\
+    (forall fuel san bare ps b, dec1 fuel san s1 t bare ps b = dec1 fuel san s2 (rn r t) bare ps b).
+Proof. exact ir_iso_sound. Qed.
+Print Assumptions C11_isomorphic_ir_same_codec.
+
+(** the one-directional part (no injectivity needed): a simulation is enough for equal codecs *)
+Theorem C11_simulated_ir_same_codec : forall r s1 s2,
+  ir_sim r s1 s2 = true ->
+  forall t, (t < length s1)%nat ->
+    (forall san bare ps v, enc1 san s1 t bare ps v = enc1 san s2 (rn r t) bare ps v) /\
+    (forall fuel san bare ps b, dec1 fuel san s1 t bare ps b = dec1 fuel san s2 (rn r t) bare ps b).
+Proof. exact ir_sim_sound. Qed.
+Print Assumptions C11_simulated_ir_same_codec.
+
+(** identical numbering: equal codecs at every index, also outside both IRs *)
+Theorem C11_equal_ir_same_codec : forall s1 s2,
+  schema_eqb s1 s2 = true ->
+  forall t,
+    (forall san bare ps v, enc1 san s1 t bare ps v = enc1 san s2 t bare ps v) /\
+    (forall fuel san bare ps b, dec1 fuel san s1 t bare ps b = dec1 fuel san s2 t bare ps b).
+Proof. exact schema_eqb_sound. Qed.
+Print Assumptions C11_equal_ir_same_codec.
+
+(** `demo.grid # tags:[int] rows:# cols:# data:rows*[int] = demo.Grid;` -- independent IR (own
+    numbering) against the kernel's IR (kernel numbering, extra unreachable primitive in front). *)
+Definition c11g_indep : schema :=
+  [ TStruct 11 [mkField 1 true None []; mkField 3 true None []; mkField 3 true None [];
+                mkField 4 true None [NField 1]];                       (* 0 demo.grid *)
+    TArray AVector (mkField 2 true None []);                           (* 1 []int     *)
+    TPrim PInt;                                                        (* 2 int       *)
+    TPrim PNat;                                                        (* 3 #         *)
+    TArray ATupleDyn (mkField 2 true None []) ].                       (* 4 [*]int    *)
+Definition c11g_kernel (size_field : nat) : schema :=
+  [ TPrim PLong; TPrim PNat; TPrim PInt;
+    TArray ATupleDyn (mkField 2 true None []);
+    TArray AVector (mkField 2 true None []);
+    TStruct 11 [mkField 4 true None []; mkField 1 true None []; mkField 1 true None [];
+                mkField 3 true None [NField size_field]] ].
+Definition c11g_r : list nat := [5; 4; 2; 1; 3]%nat.
+
+(** accepted for the right IR, refused when `data` is sized by `cols` (field 2) instead of `rows`
+    (field 1) -- the resolution defect of the seeded change -- and the two IRs then really encode
+    the value rows=1 cols=2 data=[7] differently (the wrong one refuses it) *)
+Example C11_ex_iso_accepts_and_refuses :
+  ir_iso c11g_r c11g_indep (c11g_kernel 1) = true /\
+  ir_iso c11g_r c11g_indep (c11g_kernel 2) = false /\
+  ir_iso [5; 4; 2; 1; 4]%nat c11g_indep (c11g_kernel 1) = false /\
+  enc1 true c11g_indep 0 true [] (VStruct [Some (VArr []); Some (VNum 1); Some (VNum 2); Some (VArr [VNum 7])])
+    = Some [0;0;0;0; 1;0;0;0; 2;0;0;0; 7;0;0;0] /\
+  enc1 true (c11g_kernel 1) 5 true [] (VStruct [Some (VArr []); Some (VNum 1); Some (VNum 2); Some (VArr [VNum 7])])
+    = Some [0;0;0;0; 1;0;0;0; 2;0;0;0; 7;0;0;0] /\
+  enc1 true (c11g_kernel 2) 5 true [] (VStruct [Some (VArr []); Some (VNum 1); Some (VNum 2); Some (VArr [VNum 7])])
+    = None.
+Proof. vm_compute. repeat split; reflexivity. Qed.
